@@ -62,6 +62,14 @@ int id (string s) {
   return s == oid;
 }
 
+// driver-initiated call channel: the backend tick calls heart_beat() (call_function, no destructed test of its own)
+void heart_beat () {
+  VL ("hb " + oid + " hbeat 0");
+  run ("hbeat", 0);
+  VL ("he " + oid + " hbeat");
+}
+void x_hb (int on) { set_heart_beat (on); }
+
 void x_aa (string verb) { add_action ("act", verb); }
 int x_cmd (string verb) { return command (verb); }
 void x_mv (object d) { move_object (d); }
